@@ -30,7 +30,8 @@ def le (b : ByteArray) (off w : Nat) : Nat :=
 
 structure Ent where
   slot : Nat
-  units : List Nat      -- UTF-16 units up to the terminator
+  units : List Nat      -- UTF-16 units of the name (as many as the length field says)
+  terminated : Bool     -- the unit behind the name is U+0000
   nameLen : Nat
   typ : Nat
   color : Nat
@@ -59,9 +60,14 @@ termination_by l => l.length
 /-- `v3`: in a version 3 file the most significant 32 bits of the size field are ignored (2.6.3) -/
 def readEnt (v3 : Bool) (b : ByteArray) (off slot : Nat) : Ent :=
   let allUnits := (List.range 32).map (fun i => le b (off + 2 * i) 2)
-  let units := allUnits.takeWhile (· ≠ 0)
+  -- the name is what the length field (bytes, terminator included) says it is: U+0000 is not one of the
+  -- characters MS-CFB forbids in a name, so a name may contain it; an unusable length field falls back
+  -- to "up to the first terminator" and is reported by the length rule below
+  let nameLen := le b (off + 64) 2
+  let units := if nameLen % 2 = 0 ∧ 2 ≤ nameLen ∧ nameLen ≤ 64 then allUnits.take (nameLen / 2 - 1)
+    else allUnits.takeWhile (· ≠ 0)
   let zeroRange (a n : Nat) : Bool := (List.range n).all (fun i => b.get! (off + a + i) == 0)
-  { slot := slot, units := units, nameLen := le b (off + 64) 2, typ := (b.get! (off + 66)).toNat,
+  { slot := slot, units := units, terminated := (allUnits.getD units.length 0 == 0), nameLen := nameLen, typ := (b.get! (off + 66)).toNat,
     color := (b.get! (off + 67)).toNat, left := le b (off + 68) 4, right := le b (off + 72) 4,
     child := le b (off + 76) 4, clsidZero := zeroRange 80 16, bits := le b (off + 96) 4,
     ctime := le b (off + 100) 8, mtime := le b (off + 108) 8, start := le b (off + 116) 4,
@@ -238,7 +244,7 @@ def check (upper : Nat → Nat) (b : ByteArray) : List String := Id.run do
     else
       if !reach[e.slot]! then bad := s!"T allocated slot {e.slot} is not reachable from the root" :: bad
       if e.nameLen ≠ expectLen then bad := s!"E slot {e.slot}: name length field {e.nameLen}, name has {e.units.length} units" :: bad
-      if e.units.length > 31 then bad := s!"E slot {e.slot}: name not terminated" :: bad
+      if e.units.length > 31 ∨ !e.terminated then bad := s!"E slot {e.slot}: name not terminated" :: bad
       if e.typ = 2 then
         if !e.clsidZero ∨ e.ctime ≠ 0 ∨ e.mtime ≠ 0 then bad := s!"E stream slot {e.slot} carries a CLSID or timestamps" :: bad
         if e.child ≠ NOSTREAM then bad := s!"E stream slot {e.slot} has a child" :: bad
